@@ -1,0 +1,9 @@
+//go:build verif
+
+package table
+
+// IncPrefixVerif re-exports incPrefix for the verification harness (add-only hook).
+func IncPrefixVerif(prefix []byte) []byte { return incPrefix(prefix) }
+
+// NoPrefixVerif re-exports noPrefix for the verification harness (add-only hook).
+func NoPrefixVerif(key, prefix []byte) []byte { return noPrefix(key, prefix) }
